@@ -21,6 +21,8 @@ func getIndelsPair(ref, query []byte, offsetRefCoord []int, offsetMSACoord []int
 
 	variants := make([]Variant, 0)
 
+	refBases := 0 // the number of reference bases to the left of the current alignment column
+
 	for pos := range ref {
 		if ref[pos] == 244 { // insertion relative to reference (somewhere in the alignment)
 			if query[pos] == 244 { // insertion is not in this seq
@@ -29,16 +31,17 @@ func getIndelsPair(ref, query []byte, offsetRefCoord []int, offsetMSACoord []int
 				if insOpen { // not the first position of an insertion
 					insLength++ // we increment the length counter
 				} else { // the first position of an insertion
-					insStart = pos // we record the first position of the insertion 0-based in alignment coordinates
+					insStart = refBases // we record the reference base that the insertion comes immediately after (1-based; 0 = before the first base)
 					insLength = 1
 					insOpen = true
 				}
 			}
 		} else { // not an insertion relative to the reference at this position
 			if insOpen { // first base after an insertion, so we need to log the insertion
-				variants = append(variants, Variant{Changetype: "ins", Position: (insStart - offsetMSACoord[insStart]), Length: insLength})
+				variants = append(variants, Variant{Changetype: "ins", Position: insStart, Length: insLength})
 				insOpen = false
 			}
+			refBases++
 			if query[pos] == 244 { // deletion in this seq
 				if delOpen { // not the first position of a deletion
 					delLength++ // we increment the length (there is not a deletion in the reference)
@@ -64,7 +67,7 @@ func getIndelsPair(ref, query []byte, offsetRefCoord []int, offsetMSACoord []int
 	// }
 	// catch insertions that abut the end of the alignment
 	if insOpen {
-		variants = append(variants, Variant{Changetype: "ins", Position: (insStart - offsetMSACoord[insStart]) + 1, Length: insLength})
+		variants = append(variants, Variant{Changetype: "ins", Position: insStart, Length: insLength})
 	}
 
 	return variants
